@@ -70,11 +70,14 @@ func newDataReader(c *Conn) *dataReader {
 
 func (r *dataReader) Read(b []byte) (n int, err error) {
 	if r.limited {
-		if r.n <= 0 {
+		if r.n < 0 {
 			return 0, ErrDataTooLarge
 		}
-		if int64(len(b)) > r.n {
-			b = b[0:r.n]
+		// Ask for one octet more than the remaining budget: a message of
+		// exactly the allowed size still has to reach its end marker.
+		// Getting that extra octet means the message is too large.
+		if int64(len(b)) > r.n+1 {
+			b = b[0 : r.n+1]
 		}
 	}
 
@@ -151,6 +154,10 @@ func (r *dataReader) Read(b []byte) (n int, err error) {
 
 	if r.limited {
 		r.n -= int64(n)
+		if r.n < 0 {
+			// The last octet is beyond the limit, it is not handed out.
+			return n - 1, ErrDataTooLarge
+		}
 	}
 	return
 }
